@@ -46,6 +46,7 @@ def parseTSetup : List String → List String → List Fill → Option TSetup
       match parseNat (w.drop (if w.startsWith "cache=" then 6 else 5)).toString with
       | some _ => parseTSetup ws hw fs
       | none => none
+    else if w.startsWith "con=" then none
     else if w.startsWith "fill=" then
       match (w.drop 5).toString.splitOn ":" with
       | [t, n, pad] =>
@@ -93,7 +94,7 @@ def parseCase (line : String) : Option (TSetup × List (Nat × COp)) :=
           match st.base.tables.find? (fun t => t.name == f.table) with
           | some t => t.cols.map (·.ty) == [ColType.big, ColType.int, ColType.text]
           | none => false)
-        if !fillsOk then none
+        if !fillsOk || st.base.tables.any (fun t => !t.uniques.isEmpty) then none
         else
           let ops := ops.trimAscii.toString
           if ops.isEmpty then some (st, [])
@@ -121,7 +122,7 @@ def showSA : SOut → String
 def showOutA : Out → String
   | .ok => "ok"
   | .stmt o => showSA o
-  | .conflict => "conflict"
+  | .refused e => showErr e
   | .noSession => "nosession"
   | .batchErr e => "batch-" ++ showErr e
   | .batch outs => "batch(" ++ joinWith " " (outs.map showSA) ++ ")"
